@@ -206,6 +206,19 @@ CHECKS = {
             {"name": "c14-rec", "bin": "database", "build": "inpkg:pkg/database", "run": "^TestC14Rec$", "quick": 20000, "thorough": 500000},
         ],
     },
+    "C17": {
+        "level": "exploration",
+        "manifest": {
+            "technique": "property-based testing (rapid) over generated directory trees with symbolic links x URL paths x mount prefixes x options, with a content-token oracle computed by the harness",
+            "level_text": "Each case builds root/, outside/ and a sibling root-evil/ in a scratch directory; every regular file holds a unique token. Files, directories and symlinks of every kind (relative, absolute, ../, to files and directories inside and outside, dangling, self-referential, an index file that is a link) are created from the case, then StaticFileServer.ServeHTTP is called with hand-built url.URL paths (existing names, trailing slashes, names below link targets, dot-dot sequences, backslashes, doubled slashes, NUL bytes, the prefix repeated) under six mount prefixes, two index names and listing on/off, and ResponseHelper.SendFile with relative, absolute, empty and escaping targets. No response of any status may contain a token of a file outside the root; a 2xx body must be exactly the content of a regular file inside the root or a directory listing; other statuses must be 400/403/404/405; a plain file under a plain root must be served (non-vacuity).",
+            "level_note": "Requests are delivered to ServeHTTP directly, so raw path shapes survive (a ServeMux in front would redirect some of them). registerStaticRoutes in cmd/glyph only resolves the directory and registers this handler and is not exercised separately.",
+        },
+        "rule": ("rapid-generated (tree of 6-16 entries, prefix, index name, listing flag, 2-12 URL paths, 0-3 SendFile targets); non-trivial = some request path resolves outside the root lexically or through a link, or contains a dot-dot segment; distinct = hash of the case"),
+        "assumptions": ["scratch trees are created under the run directory and removed after each case"],
+        "units": [
+            {"name": "c17-static", "bin": "c17", "build": "harness:c17", "run": "^TestC17Static$", "quick": 15000, "thorough": 800000},
+        ],
+    },
     "C18": {
         "level": "exploration",
         "manifest": {
